@@ -257,6 +257,10 @@ def check_engines(ctx, progs, rule="block-eq", families=("chacha", "salsa")):
                 M.call_fn(fn, [s.ref()])
                 return _diff(B, words_of_state(M, s.v, layout), x[:12] + [B.add(x[12], B.const(1, 32))] + x[13:])
             run("increment", "word12+1", body, "increment adds 1 to word 12 modulo 2^32 and touches nothing else")
+            if all(passed.get(k_) and all(passed[k_]) for k_ in ("set_counter", "increment")):
+                why_c = "%s::set_counter / increment equal the specification as value graphs (block-eq)" % mod
+                for pre in ("counter-step:%s::set_counter" % mod, "counter-step:%s::increment" % mod, "counter-width:%s::increment" % mod):
+                    ctx.subsume(pre, why_c)
         # 64-bit counters: both outcomes of the carry test
         cname, lo, hi = ("increment64", 12, 13) if fam == "chacha" else ("increment", 8, 9)
         for carry in (0, 1):
